@@ -161,6 +161,19 @@ def check_history(cfg, ops, remount_every=1, want=None, stop_on_first=False, io_
                         continue
                 except Exception:  # noqa
                     pass
+            if got != exp and op[0] in ("read", "readinto") and got[0] == "ok" and exp[0] == "ok" and op[1] in w.rhandles:
+                # the same root cause seen through a read: the byte buffer's position is beyond end-of-file (left
+                # there by a shrinking truncate), so it reads nothing; FatIO's clamped position reads what lies there
+                try:
+                    rh = w.rhandles[op[1]]
+                    rsize = w.ref.getsize(rh.name)
+                    if rh.pos > rsize:
+                        add(["C02"], "position-beyond-eof-clamped", "%s: a byte buffer at position %d of a %d-byte file reads nothing, "
+                            "FatIO (position clamped) returned %s" % (opkind(op), rh.pos, rsize, str(got[1])[:40]), i)
+                        rh.pos = w.handles[op[1]].tell()
+                        continue
+                except Exception:  # noqa
+                    pass
             if got != exp:
                 pr = ["C02"] if op[0] in IO_OPS else ["C01"]
                 if got[0] == "err" and not is_sanctioned(got[1]):
